@@ -3,6 +3,8 @@ package main
 import (
 	"fmt"
 	"strings"
+
+	"github.com/osteele/liquid"
 )
 
 // Stream `exprs` (property C08): expressions — lookup laws against a reference table, filter
@@ -141,6 +143,39 @@ func exprsStream(r *Run) {
 				r.Violate("C08", "inapplicable-step-is-nil", renderCaseLine(engineCfg{}, "", 0, src, env), res)
 			}
 		}
+	}
+
+	// ---- 0. literals denote themselves: integer and float literals are decimal whatever their spelling
+	// (leading zeros are not an octal prefix), strings are their bytes, true/false/nil ----
+	{
+		arr := make([]*V, 12)
+		for k := range arr {
+			arr[k] = VStr(fmt.Sprintf("e%d", k))
+		}
+		env := map[string]*V{"a": VAnys(arr...)}
+		for _, c := range [][2]string{
+			{"{{ 0 }}", "0"}, {"{{ 7 }}", "7"}, {"{{ 010 }}", "10"}, {"{{ 007 }}", "7"}, {"{{ 08 }}", "8"}, {"{{ 09 }}", "9"}, {"{{ 00 }}", "0"}, {"{{ 0100 }}", "100"},
+			{"{{ -012 }}", "-12"}, {"{{ -0 }}", "0"}, {"{{ 0777 }}", "777"}, {"{{ 0019 }}", "19"}, {"{{ 1.50 }}", "1.5"}, {"{{ 010.5 }}", "10.5"}, {"{{ 007.25 }}", "7.25"},
+			{"{{ -01.5 }}", "-1.5"}, {"{{ 2.0 }}", "2"}, {"{{ 'a\\n' }}", "a\\n"}, {`{{ "x'y" }}`, "x'y"}, {`{{ 'x"y' }}`, `x"y`}, {"{{ true }}|{{ false }}|{{ nil }}", "true|false|"},
+			{"{{ a[010] }}", "e10"}, {"{{ a[08] }}", "e8"}, {"{{ a[-011] }}", "e1"}, {"{{ 010 | plus: 011 }}", "21"}, {"{% if 010 == 10 %}T{% else %}F{% endif %}", "T"},
+			{"{% if 017 > 16 %}T{% else %}F{% endif %}", "T"}, {"{% for i in (08..010) %}{{ i }},{% endfor %}", "8,9,10,"}, {"{% assign z = 0012 %}{{ z }}", "12"},
+			{"{{ 'abcdefghijkl' | slice: 010, 01 }}", "k"}, {"{{ 'abc' | append: 010 }}", "abc10"}, {"{% case 010 %}{% when 8 %}eight{% when 10 %}ten{% endcase %}", "ten"},
+		} {
+			if !r.Mine() {
+				continue
+			}
+			res := run(engineCfg{}, c[0], env, "literals")
+			if out, ok := okOut(res); !ok || out != c[1] {
+				r.Violate("C08", "literal-denotes-itself", renderCaseLine(engineCfg{}, "", 0, c[0], env), fmt.Sprintf("%s: want %q got %s", c[0], c[1], res))
+			}
+		}
+	}
+
+	// ---- 2a. maps whose key type is a DEFINED string type (type Section string): a.b, a["b"], a[k] read the entry,
+	// size falls back to the entry count, a missing key is nil. Built directly as Go values (the value codec has
+	// no defined key types), so these cases are judged by the oracle alone (no case line for the model). ----
+	if r.Shard == 0 {
+		definedKeyMapsFamily(r)
 	}
 
 	// ---- 2b. a string-keyed map has no entry for an integer: m[65] is a missing key, not the entry "A"
@@ -323,4 +358,60 @@ func lastTopLevelPipe(s string) int {
 		}
 	}
 	return last
+}
+
+type exprsSection string
+type exprsLevel int
+
+// definedKeyMapsFamily: see section 2a of exprsStream.
+func definedKeyMapsFamily(r *Run) {
+	type tc struct {
+		src, want string
+	}
+	envs := []map[string]any{
+		{"m": map[exprsSection]any{"intro": "I", "body": 3, "end": nil}, "k": "body", "dk": exprsSection("intro")},
+		{"m": map[exprsSection]string{"intro": "I", "body": "3"}, "k": "body", "dk": exprsSection("intro")},
+		{"m": &map[exprsSection]any{"intro": "I", "body": 3}, "k": "body", "dk": exprsSection("intro")},
+		{"m": map[string]any{"intro": "I", "body": 3}, "k": exprsSection("body"), "dk": exprsSection("intro")},
+		{"m": []any{map[exprsSection]any{"intro": "I", "body": 3}}, "k": "body", "dk": exprsSection("intro"), "nested": true},
+	}
+	cases := []tc{
+		{"[{{ m.intro }}][{{ m[\"intro\"] }}][{{ m.body }}][{{ m[k] }}][{{ m[dk] }}]", "[I][I][3][3][I]"},
+		{"[{{ m.missing }}][{{ m[\"missing\"] }}][{{ m.size }}]", "[][][SIZE]"},
+		{"{% if m.intro == \"I\" %}T{% else %}F{% endif %}{% if m contains \"body\" %}T{% else %}F{% endif %}", "TT"},
+		{"{% assign t = m.intro | append: \"!\" %}{{ t }}", "I!"},
+	}
+	for ei, env := range envs {
+		for _, c := range cases {
+			src, want := c.src, c.want
+			n := 2
+			if mm, ok := env["m"].(map[exprsSection]any); ok {
+				n = len(mm)
+			}
+			want = strings.ReplaceAll(want, "SIZE", fmt.Sprint(n))
+			if env["nested"] == true {
+				src = strings.ReplaceAll(strings.ReplaceAll(src, "m.", "m[0]."), "m[", "m[0][")
+				src = strings.ReplaceAll(src, "m[0][0].", "m[0].")
+				src = strings.ReplaceAll(src, "m contains", "m[0] contains")
+			}
+			b := map[string]any{}
+			for k, v := range env {
+				if k != "nested" {
+					b[k] = v
+				}
+			}
+			res := guard(func() string {
+				out, err := liquid.NewEngine().ParseAndRenderString(src, b)
+				if err != nil {
+					return "err " + err.Error()
+				}
+				return "ok " + out
+			})
+			r.Count("defined-key-maps")
+			if res != "ok "+want {
+				r.Violate("C08", "map-property-and-index", fmt.Sprintf("exprs-defined-key-map %d %s", ei, hexField(src)),
+					fmt.Sprintf("bindings %T: %q renders %s, want %q", env["m"], src, res, want))
+			}
+		}
+	}
 }
